@@ -68,6 +68,7 @@ inductive Res (σ α : Type) where
   | ok (a : α) (s : σ) (rest : Bytes)
   | err (kind : String) (s : σ)
   | panic (cls : String) (s : σ)
+deriving DecidableEq, Repr
 
 /-- the receiver as the call leaves it, whatever the outcome -/
 def Res.state {σ α : Type} : Res σ α → σ
@@ -87,7 +88,7 @@ def Res.isErr {σ α : Type} : Res σ α → Bool
   | .err _ _ => true
   | _ => false
 
-def Rd (σ α : Type) := σ → Bytes → Res σ α
+abbrev Rd (σ α : Type) := σ → Bytes → Res σ α
 
 def Rd.pure {σ α : Type} (a : α) : Rd σ α := fun s bs => .ok a s bs
 
@@ -110,6 +111,7 @@ def readU32 {σ : Type} : Rd σ Nat := Rd.bind (readN 4) (fun b => Rd.pure (leVa
 def readU64 {σ : Type} : Rd σ Nat := Rd.bind (readN 8) (fun b => Rd.pure (leVal b))
 
 def failWith {σ α : Type} (k : String) : Rd σ α := fun s _ => .err k s
+def panicWith {σ α : Type} (c : String) : Rd σ α := fun s _ => .panic c s
 def getS {σ : Type} : Rd σ σ := fun s bs => .ok s s bs
 def modifyS {σ : Type} (f : σ → σ) : Rd σ Unit := fun s bs => .ok () (f s) bs
 
@@ -163,9 +165,7 @@ def VecZnx.readFrom : Rd VecZnx Unit := do
     let self ← getS
     let bufLen := self.data.length
     if bufLen < len then failWith "invalid" else do              -- buffer too small
-    let capacityFits : Bool := match cm3x8 newN newCols newMaxSize with
-      | some cap => decide (cap ≤ bufLen)
-      | none => false
+    let capacityFits : Bool := (cm3x8 newN newCols newMaxSize).any (fun cap => decide (cap ≤ bufLen))   -- .is_some_and(|cap| cap <= buf.len())
     if newSize > newMaxSize || !capacityFits then failWith "invalid" else do
     readExactInto len VecZnx.data (fun s d => { s with data := d })
     modifyS (fun s => { s with n := newN, cols := newCols, size := newSize, maxSize := newMaxSize })
@@ -179,7 +179,7 @@ def VecZnx.readFromOld (p : Profile) : Rd VecZnx Unit := do
   let newMaxSize ← readU64
   let len ← readU64
   match (do let x ← mulU p newN newCols; let y ← mulU p x newSize; mulU p y 8 : Outcome Nat) with
-  | .panic c => fun s _ => .panic c s
+  | .panic c => panicWith c
   | .err k => failWith k
   | .ok expectedLen =>
     if expectedLen ≠ len then failWith "invalid" else do
@@ -399,7 +399,7 @@ def readSeedVecAt (i : Nat) : Rd St Unit := do
   let seedLen ← readU32
   let s ← getS
   if i ≥ s.seeds.length then failWith "shape" else
-  if seedLen * 32 > s.mem then (fun s _ => .panic "alloc" s) else do
+  if seedLen * 32 > s.mem then panicWith "alloc" else do
   modifyS (fun s => { s with seeds := s.seeds.set i ⟨seedLen, []⟩ })
   readSeedsLoop i seedLen seedLen []
 
